@@ -25,7 +25,7 @@ def design_checks(ck, tier):
         runs += [("set/A123", dict(mode="set", msgs="MsgsA123", init_a="{14}", init_b="{15}", win=3)),
                  ("set/twoch", dict(mode="set", chans="Chans2", msgs="MsgsTwoCh", init_a="{14}", init_b="{0}"))]
     for label, kw in runs:
-        res = sc.tlc_mc(ck, label.replace("/", "_"), timeout=1500 if tier == "thorough" else 300, **kw)
+        res = sc.tlc_mc(ck, label.replace("/", "_"), timeout=1800 if tier == "thorough" else 900, **kw)
         vlib.tlc_ok(res, label)
         ck.add_tlc(res, label)
 
